@@ -46,6 +46,15 @@ const ASSETS_THOROUGH: &[&str] = &[
 // helpers
 // ------------------------------------------------------------------------------------------
 
+/// last panic message with the source path reduced to its file name
+fn panic_msg() -> String {
+	let m = crate::runner::last_panic();
+	match m.rsplit_once(" @ ") {
+		Some((msg, path)) => format!("{} @ {}", msg, path.rsplit('/').next().unwrap_or(path)),
+		None => m,
+	}
+}
+
 fn hex_of(bytes: &[u8]) -> String {
 	let mut s = String::with_capacity(bytes.len() * 2);
 	for b in bytes {
@@ -396,7 +405,7 @@ fn set_file(st: &mut State, bytes: Vec<u8>, is_orig: bool, pre: &str, twin: &str
 	let l = load_static(&bytes);
 	let replay = format!("raw {}", hex_of(&bytes));
 	if let Loaded::Panic = l {
-		out.oracle_fail("no_panic", format!("{} :: static load panicked: {} (from: {})", replay, crate::runner::last_panic(), op));
+		out.oracle_fail("no_panic", format!("{} :: static load panicked: {} (from: {})", replay, panic_msg(), op));
 	}
 	let loaded = match &l {
 		Loaded::Ok(r, f) => Some((*r, f.clone())),
@@ -506,7 +515,7 @@ fn exec(st: &mut State, op: &str, twin: &str, out: &mut Out) {
 				}
 				Err(k) => {
 					if k == "panic" {
-						out.oracle_fail("no_panic", format!("raw {} :: opening the stream panicked: {}", hex_of(&st.file), crate::runner::last_panic()));
+						out.oracle_fail("no_panic", format!("raw {} :: opening the stream panicked: {}", hex_of(&st.file), panic_msg()));
 					}
 					st.stream = None;
 					out.put(if twin == "nopred" { "nopred".into() } else { k });
@@ -533,7 +542,7 @@ fn exec(st: &mut State, op: &str, twin: &str, out: &mut Out) {
 					};
 					let (frames, end) = stream_run(s, k);
 					if matches!(end, RunEnd::Panic) {
-						out.oracle_fail("no_panic", format!("{} :: {}", ctx, crate::runner::last_panic()));
+						out.oracle_fail("no_panic", format!("{} :: {}", ctx, panic_msg()));
 					}
 					check_stream_frames(s, &frames, out, &ctx);
 					out.put(show_run(&frames, &end));
@@ -580,7 +589,7 @@ fn exec(st: &mut State, op: &str, twin: &str, out: &mut Out) {
 					}
 					let l = load_static(&b);
 					match &l {
-						Loaded::Panic => out.oracle_fail("no_panic", format!("{} :: static load panicked: {}", op, crate::runner::last_panic())),
+						Loaded::Panic => out.oracle_fail("no_panic", format!("{} :: static load panicked: {}", op, panic_msg())),
 						Loaded::Ok(r, f) => {
 							if tok[2] == "trunc" {
 								let is_prefix = f.len() <= a.frames.len() && f.iter().zip(a.frames.iter()).all(|(x, y)| same_frame(x, y));
@@ -602,7 +611,7 @@ fn exec(st: &mut State, op: &str, twin: &str, out: &mut Out) {
 						}
 						Err(k) => {
 							if k == "panic" {
-								out.oracle_fail("no_panic", format!("{} :: opening the stream panicked: {}", op, crate::runner::last_panic()));
+								out.oracle_fail("no_panic", format!("{} :: opening the stream panicked: {}", op, panic_msg()));
 							}
 						}
 					}
@@ -813,16 +822,34 @@ fn gen_mutation(rng: &mut Rng, stats: &mut Stats, w: &Wav, lines: &mut Vec<Strin
 		stats.hit("mut.trunc");
 		false
 	} else {
-		let pos = match rng.below(3) {
+		let mut pos = match rng.below(3) {
 			0 => rng.below(44) as usize,
 			1 => 4 + rng.below(40) as usize,
 			_ => rng.below(len.max(1) as u64) as usize,
 		};
-		let mask = match rng.below(4) {
+		let mut mask = match rng.below(4) {
 			0 => 1u8 << rng.below(8),
 			1 => 0xff,
 			_ => 1 + rng.below(255) as u8,
 		};
+		if rng.chance(1, 10) {
+			// clear one non-zero byte of a header field (channels, rate, block align, bits, data length)
+			let fields: [(usize, u32); 5] = [
+				(22, w.ch as u32),
+				(24, w.rate),
+				(32, (w.ch * w.bytes_per) as u32),
+				(34, (w.bytes_per * 8) as u32),
+				(40, w.data_len() as u32),
+			];
+			let (off, v) = rng.pick(&fields);
+			let nz: Vec<usize> = (0..4).filter(|j| (v >> (8 * j)) & 0xff != 0).collect();
+			if !nz.is_empty() {
+				let j = rng.pick(&nz);
+				pos = off + j;
+				mask = ((v >> (8 * j)) & 0xff) as u8;
+				stats.hit("mut.xor.clear-field-byte");
+			}
+		}
 		lines.push(format!("mut.xor {} {}", pos, mask));
 		stats.hit(if pos < 44 { "mut.xor.header" } else { "mut.xor.data" });
 		pos >= 44 && (w.fmt == "f32" || w.fmt == "f64")
